@@ -41,7 +41,7 @@ impl Check for C08 {
     fn meta(&self) -> Meta {
         Meta {
             level: "exploration",
-            rule: "one run = one value v of an Instantiable type (bit, byte, native, secp256k1 Fp/Fq, BLS12-381 Fp, Jubjub point and scalar, secp256k1 and BLS12-381 G1 points, BigUint of 1..2048 bits; boundary representatives: 0, 1, m-1, m-2, identity points, maximal limbs) exposed by a standard-library circuit through constrain_as_public_input, assign_as_public_input or the committed instance column. The instance the circuit binds is read off the copy constraints and must equal T::as_public_input(v); every single-position edit of that vector must make the circuit unsatisfiable; a second value of the same type must have a different encoding; for every 10th run the real key generator records nb_public_inputs, the real verifier accepts the off-circuit encoding and rejects it with the last element dropped or a zero appended. distinct_nontrivial counts distinct (type, path, value) digests",
+            rule: "one run = one value v of an Instantiable type (bit, byte, native, secp256k1 Fp/Fq, BLS12-381 Fp, Jubjub point and scalar, secp256k1 and BLS12-381 G1 points, BigUint of 1..2048 bits; boundary representatives: 0, 1, m-1, m-2, identity points, maximal limbs) exposed by a standard-library circuit through constrain_as_public_input, assign_as_public_input or the committed instance column. The instance the circuit binds is read off the copy constraints and must equal T::as_public_input(v); every single-position edit of that vector must make the circuit unsatisfiable; a second value of the same type must have a different encoding; for every 10th run the real key generator records nb_public_inputs, the real verifier accepts the off-circuit encoding and rejects it with the last element dropped or a zero appended (committed column: the verifier is given the commitment to the encoding and an empty plain vector; another commitment, an extra plain scalar and the value repeated in the plain vector must be refused). distinct_nontrivial counts distinct (type, path, value) digests",
             assumptions: vec![
                 "there is no schedule or storage in this property: the simulator contributes the two-party framing, the read-back of the bound instance and the instance-vector faults",
                 "verifying-key identity, accumulator and MSM encodings are exercised under C20, IR value types under C18",
@@ -51,7 +51,7 @@ impl Check for C08 {
                 ("off-circuit encoders (Instantiable::as_public_input)", "real (the second party)"),
                 ("constraint satisfaction", "MockProver; sampled: real keygen / prover / verifier"),
             ],
-            expected_probes: vec!["instance_position_edit_rejected", "real_nb_public_inputs_checked", "committed_column"],
+            expected_probes: vec!["instance_position_edit_rejected", "real_nb_public_inputs_checked", "committed_column", "real_committed_column_checked"],
         }
     }
     fn runs(&self, tier: Tier) -> u64 {
@@ -68,7 +68,9 @@ impl Check for C08 {
         other.p = case.p.clone();
         other.cols = case.cols;
         other.mbl = case.mbl;
-        serde_json::to_value(Scn { case, other, real: idx % 10 == 0 }).unwrap()
+        // the committed-column paths are few and small: every other visit goes through the real pipeline
+        let real = idx % 10 == 0 || (op.ends_with(".committed") && (idx as usize / all.len()) % 2 == 0);
+        serde_json::to_value(Scn { case, other, real }).unwrap()
     }
     fn execute(&self, scn: &Value, st: &mut Stats) -> Verdict {
         let s: Scn = match serde_json::from_value(scn.clone()) {
@@ -164,6 +166,45 @@ fn run(s: &Scn, st: &mut Stats) -> Verdict {
         }
     }
     // real pipeline: nb_public_inputs recorded at key generation equals what the verifier insists on
+    if s.real && committed {
+        // the committed column through the real pipeline: the verifier is given the plain
+        // vector (empty) and the commitment to the committed values
+        use midnight_proofs::poly::kzg::KZGCommitmentScheme;
+        let r = catch(|| {
+            rayon::sim::isolated(1, || -> Result<(), String> {
+                let k2 = MidnightCircuit::from_relation(&rel).min_k();
+                if k2 > 12 {
+                    return Ok(());
+                }
+                let srs = fixtures::srs(k2);
+                let vk = midnight_zk_stdlib::setup_vk(&srs, &rel);
+                let pk = midnight_zk_stdlib::setup_pk(&rel, &vk);
+                let plain: Vec<Fq> = vec![];
+                let proof = midnight_zk_stdlib::prove::<OpRel, blake2b_simd::State>(&srs, &pk, &rel, &plain, wit.clone(), Prng::new(8, "c08c").chacha("prove")).map_err(|e| format!("prove: {e:?}"))?;
+                let vp = srs.verifier_params();
+                let com = |v: &[Fq]| -> midnight_curves::G1Affine { midnight_proofs::plonk::commit_to_instances::<_, KZGCommitmentScheme<midnight_curves::Bls12>>(&srs, vk.vk().get_domain(), v).into() };
+                midnight_zk_stdlib::verify::<OpRel, blake2b_simd::State>(&vp, &vk, &plain, Some(com(&e_off)), &proof)
+                    .map_err(|e| format!("the empty plain vector with the commitment to the off-circuit encoding is rejected by the real verifier: {e:?}"))?;
+                let mut other = e_off.clone();
+                other[0] += Fq::from(1);
+                if midnight_zk_stdlib::verify::<OpRel, blake2b_simd::State>(&vp, &vk, &plain, Some(com(&other)), &proof).is_ok() {
+                    return Err("the real verifier accepts the commitment to another committed value".into());
+                }
+                if midnight_zk_stdlib::verify::<OpRel, blake2b_simd::State>(&vp, &vk, &vec![Fq::from(0)], Some(com(&e_off)), &proof).is_ok() {
+                    return Err("the real verifier accepts a plain vector with an unbound extra scalar".into());
+                }
+                if midnight_zk_stdlib::verify::<OpRel, blake2b_simd::State>(&vp, &vk, &e_off, Some(com(&e_off)), &proof).is_ok() {
+                    return Err("the real verifier accepts the committed value repeated in the plain vector".into());
+                }
+                Ok(())
+            })
+        });
+        match r {
+            Ok(Ok(())) => st.probe("real_committed_column_checked"),
+            Ok(Err(e)) => return Verdict::Violation(Viol::new("RealPipelineMismatch", format!("RealPipelineMismatch:{}", case.op), format!("{} {:?} {:?}: {e}", case.op, case.ins, case.bins))),
+            Err(p) => return Verdict::Violation(Viol::new("RealPipelineMismatch", format!("RealPipelineMismatch:{}:panic", case.op), format!("{}: real pipeline panicked at {}: {}", case.op, p.site(), p.msg))),
+        }
+    }
     if s.real && !committed {
         let r = catch(|| {
             rayon::sim::isolated(1, || -> Result<(), String> {
